@@ -25,6 +25,13 @@ CLAIMED.update({
          "Trusted: go/ssa, symgo (bufio, bytes, io interpreted from their SSA), sync.Pool model, z3. Outside: payloads longer than the bound, more split points than CUTS, sideband mux/demux (not yet built)."),
 })
 
+CLAIMED.update({
+ "C06": ("Bounded solver verdict: the three delta appliers (patchDelta/PatchDelta, ReaderFromDelta, patchDeltaWriter) accept a (source, delta) pair iff a line-by-line transcription of git's patch_delta accepts and then produce the same bytes, for every source of <= SRC bytes and every delta stream of <= DELTA bytes (all byte values; malformed streams included); "
+         "copy-command and LEB128 codecs round-trip over their full integer ranges; the offset+size bound check does not wrap; patchDelta(src, DiffDelta(src,tgt)) == tgt with the block hash replaced by an arbitrary function. "
+         "Three genuine defects found this way were repaired (fix: commits); two harmless disagreement classes on malformed input are recorded known findings.",
+         "Trusted: go/ssa, symgo (bufio/bytes/io interpreted), the patch-delta.c transcription in harness/C06, stubs: sync.Pool, SHA-1 as recording hash, io.Pipe as FIFO with eager producer, z3. Outside: inputs beyond the bounds; for the reader-based appliers insert commands larger than INSMAX."),
+})
+
 NA_REASON = {
  "C05": "needs the real SHA-1 compression function on published collision blocks and Go's cross-package init order; the hash is necessarily an uninterpreted stub under symbolic execution",
  "C11": "read paths = OS filesystem + real zlib + caches over histories; solver-sized pieces are claimed under C06/C09/C10/C24",
